@@ -208,6 +208,90 @@ func c09Strategy(cc *run.Case, ns namedStrat, raceOnly bool) {
 	cc.Distinct(ns.Name)
 }
 
+// c09Helpers runs many small pipelines of parameterised stream helpers AT THE
+// SAME TIME, each with its own parameters (digits, counts, factors), and
+// compares every result with the same pipeline run alone: state kept
+// outside the call (a package-level cache of the last parameter, a shared
+// scratch buffer) shows up as a wrong value here and as a report of the race
+// detector in the race phase.
+func c09Helpers(cc *run.Case, raceOnly bool) {
+	type job struct {
+		name string
+		run  func(xs []float64) []float64
+	}
+	var jobs []job
+	for _, d := range []int{0, 1, 2, 3, 4, 6} {
+		d := d
+		jobs = append(jobs, job{fmt.Sprintf("RoundDigits(%d)", d), func(xs []float64) []float64 {
+			return helper.ChanToSlice(helper.RoundDigits(helper.SliceToChan(xs), d))
+		}})
+	}
+	for _, k := range []int{1, 2, 3, 5, 8} {
+		k := k
+		jobs = append(jobs,
+			job{fmt.Sprintf("Shift(%d)+Skip(%d)", k, k-1), func(xs []float64) []float64 {
+				return helper.ChanToSlice(helper.Skip(helper.Shift(helper.SliceToChan(xs), k, float64(k)), k-1))
+			}},
+			job{fmt.Sprintf("MultiplyBy(%d)+IncrementBy(%d)+Pow(%d)", k, k, k%3+1), func(xs []float64) []float64 {
+				return helper.ChanToSlice(helper.Pow(helper.IncrementBy(helper.MultiplyBy(helper.SliceToChan(xs), float64(k)), float64(k)), float64(k%3+1)))
+			}},
+			job{fmt.Sprintf("Change(%d)", k), func(xs []float64) []float64 {
+				return helper.ChanToSlice(helper.Change(helper.SliceToChan(xs), k))
+			}},
+			job{fmt.Sprintf("ChangePercent(%d)", k), func(xs []float64) []float64 {
+				return helper.ChanToSlice(helper.ChangePercent(helper.SliceToChan(xs), k))
+			}},
+			job{fmt.Sprintf("Last(%d)", k), func(xs []float64) []float64 {
+				return helper.ChanToSlice(helper.Last(helper.SliceToChan(xs), k))
+			}},
+			job{fmt.Sprintf("Buffered(%d)+First(%d)", k, 3*k), func(xs []float64) []float64 {
+				c := helper.Buffered(helper.SliceToChan(xs), k)
+				out := helper.ChanToSlice(helper.First(c, 3*k))
+				return out
+			}},
+		)
+	}
+	inputs := make([][]float64, len(jobs))
+	want := make([][]float64, len(jobs))
+	for i := range jobs {
+		n := cc.R.Range(20, 80)
+		xs := make([]float64, n)
+		for k := range xs {
+			xs[k] = cc.R.FRange(-50, 150)
+		}
+		inputs[i] = xs
+		if !raceOnly {
+			want[i] = jobs[i].run(xs)
+		}
+	}
+	got := make([][]float64, len(jobs))
+	var wg sync.WaitGroup
+	start := make(chan struct{})
+	for i := range jobs {
+		wg.Add(1)
+		go func(i int) {
+			defer wg.Done()
+			<-start
+			for rep := 0; rep < 3; rep++ {
+				got[i] = jobs[i].run(inputs[i])
+			}
+		}(i)
+	}
+	close(start)
+	wg.Wait()
+	cc.Count("concurrent_helper_pipelines", int64(len(jobs)))
+	if !raceOnly {
+		for i := range jobs {
+			if !bitsEq(got[i], want[i]) {
+				cc.Viol("", fmt.Sprintf("helper pipeline %s gives a different result when %d other helper pipelines with other parameters run at the same time", jobs[i].name, len(jobs)-1),
+					map[string]any{"pipeline": jobs[i].name, "input": inputs[i], "alone": jsonSafe([][]float64{want[i]}), "concurrent": jsonSafe([][]float64{got[i]})})
+				return
+			}
+		}
+	}
+	cc.Distinct("helpers/" + cc.Label)
+}
+
 func c09(ctx *run.Ctx, raceOnly bool) {
 	runtime.GOMAXPROCS(16)
 	nrand := ctx.Pick(1, 8)
@@ -226,6 +310,9 @@ func c09(ctx *run.Ctx, raceOnly bool) {
 				})
 			}
 		}
+	}
+	for b := 0; b < ctx.Pick(6, 40); b++ {
+		ctx.Case(fmt.Sprintf("helpers/%d", b), func(cc *run.Case) { c09Helpers(cc, raceOnly) })
 	}
 	base := baseStrats(ctx, nrand)
 	var small []namedStrat
